@@ -48,7 +48,7 @@ P = {
          ['accuracy of GetSegmentIntersectPt, GetClosestPointOnSegment, Area (floating-point multiply/divide is beyond every installed back end); the 64x64 multiplier itself (assumption A1/A2)'], '5 C18'),
  'C19': ('Minkowski quad construction (indices, closing edge iff closed, count) and forwarding to Union(NonZero); empty input => empty result.',
          ['that the union of the quads is right (= C01)'], '5 C19'),
- 'C20': ('Proof (loop contracts, unbounded length) for GetNext/GetPrior, RDP/RamerDouglasPeucker, TrimCollinear (in-order subsequence, open end points kept, index safety), GetBounds (int64 and double), TranslatePath and StripNearEqual (defining equations); bounded SimplifyPath and RDP epsilon clause.',
+ 'C20': ('Proof (loop contracts, unbounded length) for GetNext/GetPrior, RDP/RamerDouglasPeucker, TrimCollinear (in-order subsequence, open end points kept, index safety), GetBounds (int64 and double), TranslatePath, StripNearEqual and Length (defining equations, distances as stubs); bounded SimplifyPath and RDP epsilon clause.',
          ['Length, Ellipse, area preservation, StripNearEqual/StripDuplicates (floating point / std::unique)'], '5 C20'),
 }
 NA = {
